@@ -1,6 +1,8 @@
 import Dashu.Driver.Loop
 import Dashu.Model.Mem.Pool
 import Dashu.Model.Mem.Arith
+import Dashu.Model.Mem.Arith2
+import Dashu.Model.Mem.Arith3
 import Dashu.Model.Mem.Memory
 /-
   Driver of group `mem` (C17).
@@ -288,34 +290,77 @@ def sortedDrops (es : List Event) : String :=
 def parseForm : String → Option Form
   | "rr" => some .rr | "rv" => some .rv | "vr" => some .vr | "vv" => some .vv | _ => none
 
+/-- the compound-assignment forms `x op= y` (`av`) and `x op= &y` (`ar`) are `*self = mem::take(self) op rhs`
+    (helper_macros.rs `impl_binop_assign_by_taking`): storage-wise the by-value-lhs forms -/
+def parseFormA : String → Option Form
+  | "av" => some .vv | "ar" => some .vr | s => parseForm s
+
+def parseByVal : String → Option Bool
+  | "v" => some true | "a" => some true | "r" => some false | _ => none
+
 def arith (W : Nat) (op form a b : String) : Option String := do
   let mx := maxCap W
-  let signed := op = "iadd" || op = "isub" || op = "imul"
+  -- `sqr::MAX_LEN_SIMPLE`, regenerated from integer/src/sqr/mod.rs (Tie A)
+  let sqS := Dashu.Gen.sqr_MAX_LEN_SIMPLE
+  let signedB := op = "iadd" || op = "isub" || op = "imul" || op = "idiv" || op = "irem" || op = "idivrem" ||
+    op = "iand" || op = "ior" || op = "ixor"
+  let signed := signedB || op = "ishl" || op = "ishr" || op = "ipow"
   let xi ← (if signed then parseInt a else (fun n : Nat => (n : Int)) <$> parseNat a)
   let x := xi.natAbs
   let xs := natWords W x
   let frag ← (match op with
-    | "add" => do let y ← parseNat b; pure (fragAdd W (← parseForm form) xs (natWords W y), some (natWords W y))
-    | "sub" => do let y ← parseNat b; pure (fragSub W (← parseForm form) xs (natWords W y), some (natWords W y))
-    | "mul" => do let y ← parseNat b; pure (fragMul W 30 (← parseForm form) xs (natWords W y), some (natWords W y))
-    | "div" => do let y ← parseNat b; pure (fragDivRem W false (← parseForm form) xs (natWords W y), some (natWords W y))
-    | "rem" => do let y ← parseNat b; pure (fragDivRem W true (← parseForm form) xs (natWords W y), some (natWords W y))
+    | "add" => do let y ← parseNat b; pure (fragAdd W (← parseFormA form) xs (natWords W y), some (natWords W y))
+    | "sub" => do let y ← parseNat b; pure (fragSub W (← parseFormA form) xs (natWords W y), some (natWords W y))
+    | "mul" => do let y ← parseNat b; pure (fragMul W sqS (← parseFormA form) xs (natWords W y), some (natWords W y))
+    | "divrem" => do let y ← parseNat b; pure (fragDivRemBoth W (← parseForm form) xs (natWords W y), some (natWords W y))
+    | "and" => do let y ← parseNat b; pure (fragBit W .and (← parseFormA form) xs (natWords W y), some (natWords W y))
+    | "or" => do let y ← parseNat b; pure (fragBit W .or (← parseFormA form) xs (natWords W y), some (natWords W y))
+    | "xor" => do let y ← parseNat b; pure (fragBit W .xor (← parseFormA form) xs (natWords W y), some (natWords W y))
+    | "pow" => do
+      let k ← parseDecNat b
+      if form = "r" then pure (fragPow W mx sqS xs k, none) else none
+    | "div" => do let y ← parseNat b; pure (fragDivRem W false (← parseFormA form) xs (natWords W y), some (natWords W y))
+    | "rem" => do let y ← parseNat b; pure (fragDivRem W true (← parseFormA form) xs (natWords W y), some (natWords W y))
     | "iadd" | "isub" | "imul" => do
       let yi ← parseInt b
       let ys := natWords W yi.natAbs
       let code := if op = "iadd" then 0 else if op = "isub" then 1 else 2
-      pure (fragSigned W 30 code (← parseForm form) (decide (xi < 0)) xs (decide (yi < 0)) ys, some ys)
-    | "sqr" => if form = "r" then pure (fragSqr W 30 xs, none) else none
+      pure (fragSigned W sqS code (← parseFormA form) (decide (xi < 0)) xs (decide (yi < 0)) ys, some ys)
+    | "idiv" | "irem" | "idivrem" => do
+      let yi ← parseInt b
+      let ys := natWords W yi.natAbs
+      let kind := if op = "idiv" then 0 else if op = "irem" then 1 else 2
+      pure (fragSignedDiv W kind (← (if op = "idivrem" then parseForm form else parseFormA form)) (decide (xi < 0)) xs (decide (yi < 0)) ys, some ys)
+    | "iand" | "ior" | "ixor" => do
+      let yi ← parseInt b
+      let ys := natWords W yi.natAbs
+      let code := if op = "iand" then 0 else if op = "ior" then 1 else 2
+      pure (fragSignedBit W code (← parseFormA form) (decide (xi < 0)) xs (decide (yi < 0)) ys, some ys)
+    | "ishl" | "ishr" => do
+      let k ← parseDecNat b
+      let byVal ← parseByVal form
+      if op = "ishl" then pure (fragSignedShl W mx byVal (decide (xi < 0)) xs k, none)
+      else pure (fragSignedShr W sqS byVal (decide (xi < 0)) xs k, none)
+    | "ipow" => do
+      let k ← parseDecNat b
+      if form = "r" then pure (fragSignedPow W mx sqS (decide (xi < 0)) xs k, none) else none
+    | "setbit" | "clearbit" | "clearhigh" | "splitbits" | "nextpow2" => do
+      let k ← parseDecNat b
+      let fn : BitFn := if op = "setbit" then .setBit else if op = "clearbit" then .clearBit
+        else if op = "clearhigh" then .clearHighBits else if op = "splitbits" then .splitBits else .nextPowerOfTwo
+      if form = "v" then pure (fragBitFn W fn xs k, none) else none
+    | "sqrtrem" => if form = "r" then pure (fragSqrtRem W sqS xs, none) else none
+    | "sqr" => if form = "r" then pure (fragSqr W sqS xs, none) else none
     | "frombytes" => do
       let k ← parseDecNat b
       if (form = "le" || form = "be") && x < 2 ^ (8 * k) then pure (fragFromBytes W k x, none) else none
     | "shl" => do
       let k ← parseDecNat b
-      let byVal ← (if form = "v" then some true else if form = "r" then some false else none)
+      let byVal ← parseByVal form
       pure (fragShl W mx byVal xs k, none)
     | "shr" => do
       let k ← parseDecNat b
-      let byVal ← (if form = "v" then some true else if form = "r" then some false else none)
+      let byVal ← parseByVal form
       pure (fragShr W byVal xs k, none)
     | _ => none : Option (Frag × Option (List Nat)))
   let (fr, ys) := frag
@@ -323,7 +368,7 @@ def arith (W : Nat) (op form a b : String) : Option String := do
   let setup : List Op := (if op = "frombytes" then [] else [.fromWords 0 xs, .fromBuffer 0]) ++
     (if signed then [.withSign 0 (decide (xi < 0))] else []) ++
     (match ys with | some ys => [.fromWords 1 ys, .fromBuffer 1] | none => []) ++
-    (if signed then [.withSign 1 (decide ((parseInt b).getD 0 < 0))] else [])
+    (if signedB then [.withSign 1 (decide ((parseInt b).getD 0 < 0))] else [])
   let st ← runQuiet W mx st0 setup
   match runFrag W mx st fr.ops with
   | .error e => pure (ok ("!model-frag-fault " ++ e))
@@ -333,7 +378,7 @@ def arith (W : Nat) (op form a b : String) : Option String := do
     | .ok (st, evs2) =>
       let head := match fr.panic with
         | some k => "!" ++ k.name
-        | none => slotStr (st.P fr.res)
+        | none => slotStr (st.P fr.res) ++ (match fr.res2 with | some r2 => "&" ++ slotStr (st.P r2) | none => "")
       let o := run W mx (dropAll R) st.P st.n
       let st := applyEvs { st with n := o.next } o.evs
       let live := st.L.liveCount st.n
